@@ -1695,6 +1695,7 @@ func runC12(c *Ctx) {
 	c11R6(c)
 	c10R8As(c, c.R.Rule("R8", "K3 (= C10.R8) force-stopped stays stopped: a run parked in the recovery back-off is not restarted once a stop marked it — the marker is read after the wait, every stop that kills the tomb sets it first, and the cleanup goroutine finalizes it as UserStopped", 13))
 	c12R9(c)
+	c10R11As(c, c.R.Rule("R11", "K3 (= C10.R11) a force-stopped run stays stopped: the v1 stop marker set by an accepted (force) stop is never cleared by a later refused graceful stop — Stop clears it only when its own CompareAndSwap set it — and the cleanup goroutine recovers only an unmarked run", 3))
 	c05SharedDest(c, c.R.Rule("R10", "K4/K3 (= C05.R4) v2 no ack of an unhandled record after a force stop: a worker enters a shared destination only under sharedMu and re-checks the poison flag after acquiring it — a worker queued behind the pass the force stop broke never takes that pass's leftover reply as the confirmation of its own record (and acks it to its source)", 6))
 	msgNotDropped(c, c.R.Rule("R7", "K4 (= C06.R10) no message forgotten (v1): a stream node that received a message sends it on, hands it over, acks it or nacks it on every path — also on the ctx.Done() arms a force stop takes — so the source's wait for open messages, and with it the run, always ends", 8))
 }
@@ -2030,7 +2031,10 @@ func c12R9(c *Ctx) {
 // drain it started ends with a transient error (a destination failing on the in-flight record): the v1 Stop marks the
 // run before it asks the nodes to stop, and the cleanup goroutine enters recovery only for an unmarked run.
 func c10R11(c *Ctx) {
-	r := c.R.Rule("R11", "K3 v1: a gracefully stopped run is not recovered: Service.Stop sets the run's intentionalStop marker before stopGraceful, and in runPipeline's cleanup goroutine recoverPipeline is called only behind the !intentionalStop.Load() edge", 2)
+	c10R11As(c, c.R.Rule("R11", "K3 v1: a gracefully stopped run is not recovered: Service.Stop sets the run's intentionalStop marker before stopGraceful and takes it back only when this very call set it (CompareAndSwap), and in runPipeline's cleanup goroutine recoverPipeline is called only behind the !intentionalStop.Load() edge", 3))
+}
+
+func c10R11As(c *Ctx, r string) {
 	marker := c.Field(r, pLife, "runnablePipeline", "intentionalStop")
 	stop := c.SSA(r, pLife, "(*Service).Stop")
 	run := c.SSA(r, pLife, "(*Service).runPipeline")
@@ -2049,6 +2053,21 @@ func c10R11(c *Ctx) {
 		}
 	}
 	c.Dominated(r, "v1 Stop: the run is marked as stopped by the user before the nodes are asked to stop", asInstrs(kit.CallsTo(stop, Set(sg))), g, "rp.intentionalStop.Store/CompareAndSwap(…, true)")
+	// the mark is taken back only by the call that set it (F42's CompareAndSwap): a refused graceful stop must not
+	// erase the mark of an earlier ACCEPTED stop — a force stop during the back-off, whose Kill is a no-op on the
+	// dead tomb, is protected by nothing else
+	gOwn := kit.NewGates()
+	for _, cas := range atomicCalls(stop, marker, "CompareAndSwap") {
+		a := cas.Common().Args
+		if len(a) == 3 && kit.IsBoolConst(a[1], false) && kit.IsBoolConst(a[2], true) {
+			gOwn.AddEdges(kit.CondEdges(cas.Value(), true), "this call set the marker")
+		}
+	}
+	for _, st := range atomicCalls(stop, marker, "Store") {
+		if kit.IsBoolConst(st.Common().Args[1], false) {
+			c.Dominated(r, "v1 Stop: the marker is cleared only by the call that set it", []ssa.Instruction{st}, gOwn, "the CompareAndSwap(false, true) success edge")
+		}
+	}
 	// cleanup goroutine: recovery only for an unmarked run
 	n := 0
 	for _, lit := range kit.WithAnon(run) {
